@@ -24,6 +24,9 @@ def parseProg (j : Json) : Except String Prog := do
     let m ← Driver.getNat j "max"
     let b ← Driver.getBool j "block"
     return .batchLoop m b
+  | "batchkeep" => do
+    let m ← Driver.getNat j "max"
+    return .batchKeep m
   | "stopper" =>
     match j.getObjValAs? String "exc" with
     | .ok e => return .stopper (some (parseErr e))
